@@ -37,7 +37,7 @@ class C15(pw.P21Check):
 
     def gen(self, seed, i, tier):
         r = core.rng(seed, "C15", i)
-        nbase = 60 if tier == "quick" else 1500
+        nbase = 330 if tier == "quick" else 3000
         plan = self.base_plan(seed, r.randrange(nbase))
         plan["strict"] = i % 2
         plan["want"] = ["optional", "required-subst", "required-other", "any"][(i // 2) % 4]
